@@ -14,12 +14,14 @@
 // client boundary) is linearizable as one register (porcupine), and no lookup sees a name set that
 // belongs to no version.
 //
-// Process layout: the parent re-executes itself as 4 vk shards (one per GOMAXPROCS value) with GORACE
+// Process layout: the parent prepares fonts and documents, then re-executes itself as 8 (thorough 16) vk
+// shards (fresh processes: cold lazy initialisation; GOMAXPROCS rotates per round) with GORACE
 // set and parses their race logs.
 package main
 
 import (
 	"encoding/json"
+	"errors"
 	"fmt"
 	"math/rand/v2"
 	"os"
@@ -68,8 +70,8 @@ func main() {
 			if err := json.Unmarshal(t.Replay.Case, &rc); err != nil {
 				t.Broken("replay case: %v", err)
 			}
-			m := setupMaterial(t)
-			w := &worker{t: t, m: m, refs: map[string]*refEntry{}}
+			m := loadMaterial(t, prepareMaterial(t))
+			w := &worker{t: t, m: m, refs: map[string]*refEntry{}, nShards: t.Pick(8, 16)}
 			w.round(rc.Round)
 			t.Eval("replay")
 			return
@@ -81,12 +83,15 @@ func main() {
 		t.Rule("case = one goroutine's operation in one round (round = seeded goroutine count 2–32, operation mix, start skews, GOMAXPROCS in {1,2,4,16}, with/without fs-call delays, with/without font reload mutator); non-trivial = distinct (operation, input, goroutine count, GOMAXPROCS); plus one register history per font round")
 		t.Assume("api.DisableConfigDir() is called first; font.UserFontDir points into the sandbox and is never reassigned while goroutines run (the directory content is switched by an atomic symlink rename)")
 		t.Assume("\"same result as alone\" = byte-equal after masking /ID and PDF/ISO dates, else equal canonical object graph (strict reader, /ID /CreationDate /ModDate dropped); encrypted outputs are decrypted first; an operation whose two runs alone already differ is left out")
+		t.Assume("random 6-letter subset font tags (ABCDEF+Name) are masked like /ID; the directory is switched only after the registry's first load and only by the one mutator, each switch followed by ReloadUserFonts (switch + reload = one register write)")
 		t.Assume("rounds with injected fs-call delays go through the interposer's mutex, which can hide races from the detector around fs calls; the other half of the rounds run without it")
 		if !raceEnabled {
 			t.Inconclusive("race-detector-off (worker built without -race: add 'C40 race shadow' to props.conf)")
 		}
 		prefix := filepath.Join(t.Scratch(), "race")
-		t.RunShards(len(procsOf), racelog.Env(prefix), "VERIF_C40_CANARY=1")
+		mat := prepareMaterial(t)
+		nShards := t.Pick(8, 16)
+		runShards(t, nShards, racelog.Env(prefix), "VERIF_C40_CANARY=1", "VERIF_C40_MATERIAL="+mat)
 		if !raceEnabled {
 			return
 		}
@@ -104,7 +109,9 @@ func main() {
 			t.Count("race_blocks", 1)
 			k := b.Key()
 			if k == "-|-" {
-				t.Broken("DATA RACE inside the harness itself:\n%s", b.Text)
+				// neither stack has a pdfcpu frame: memory handed out by pdfcpu (e.g. a *Configuration)
+				// touched by harness code only, or a harness bug — reported, a human decides
+				k = "no-pdfcpu-frame"
 			}
 			key := "race/" + k
 			if !seen[key] {
@@ -117,6 +124,52 @@ func main() {
 			t.Broken("the race detector's log did not show the canary race: the race oracle is dead (log prefix %s)", prefix)
 		}
 	})
+}
+
+// runShards is t.RunShards, except that a shard killed by a Go runtime "fatal error" (concurrent map
+// access — the runtime's own detector; it exits with status 2 like a broken worker) is reported as a
+// violation instead of a broken check.
+func runShards(t *vk.T, n int, env ...string) {
+	var broken any
+	func() {
+		defer func() { broken = recover() }()
+		t.RunShards(n, env...)
+	}()
+	fatal := 0
+	for i := 0; i < n; i++ {
+		b, err := os.ReadFile(filepath.Join(t.Scratch(), fmt.Sprintf("shard-%d.stderr", i)))
+		if err != nil {
+			continue
+		}
+		txt := string(b)
+		j := strings.Index(txt, "fatal error: ")
+		if j < 0 {
+			continue
+		}
+		fatal++
+		msg := txt[j+len("fatal error: "):]
+		if k := strings.IndexByte(msg, '\n'); k >= 0 {
+			msg = msg[:k]
+		}
+		// innermost pdfcpu frame of the crashing goroutine
+		where := "unknown"
+		for _, ln := range strings.Split(txt[j:], "\n") {
+			if strings.HasPrefix(ln, "github.com/pdfcpu/pdfcpu/") {
+				where = strings.TrimPrefix(ln, "github.com/pdfcpu/pdfcpu/")
+				if k := strings.IndexByte(where, '('); k > 0 && !strings.HasPrefix(where[k:], "(*") {
+					where = where[:k]
+				}
+				break
+			}
+		}
+		if len(txt) > j+3000 {
+			txt = txt[:j+3000]
+		}
+		t.Violate("crash/"+strings.ReplaceAll(msg, " ", "_")+"/"+where, fmt.Sprintf("shard %d died with a Go runtime fatal error: %s", i, txt[j:]), map[string]any{"shard": i})
+	}
+	if broken != nil && fatal == 0 {
+		panic(broken)
+	}
 }
 
 //go:noinline
@@ -147,8 +200,8 @@ func shard(t *vk.T) {
 		_ = pprof.StartCPUProfile(f)
 		defer pprof.StopCPUProfile()
 	}
-	m := setupMaterial(t)
-	w := &worker{t: t, m: m, refs: map[string]*refEntry{}}
+	m := loadMaterial(t, os.Getenv("VERIF_C40_MATERIAL"))
+	w := &worker{t: t, m: m, refs: map[string]*refEntry{}, nShards: n}
 	rounds := t.Pick(40, 600)
 	if s := os.Getenv("VERIF_C40_ROUNDS"); s != "" {
 		fmt.Sscan(s, &rounds)
@@ -166,6 +219,7 @@ type refEntry struct {
 }
 
 type worker struct {
+	nShards int
 	t    *vk.T
 	m    *material
 	refs map[string]*refEntry
@@ -176,11 +230,11 @@ func (w *worker) plan(r int) roundCase {
 	rng := w.t.RNGi("round", r)
 	// shard = r mod 4; within a shard (k = 0,1,2,…) GOMAXPROCS rotates through {1,2,4,16}, the font
 	// traffic alternates every round and the fs-call delays every two rounds.
-	k := r / len(procsOf)
-	gs := []int{2, 2, 3, 4, 4, 6, 8, 8, 12, 16, 24, 32}
-	rc := roundCase{Round: r, Procs: procsOf[(k+r)%len(procsOf)], G: gs[rng.IntN(len(gs))], Fonts: k%2 == 0, Delays: (k/2)%2 == 1 && haveOsmon}
+	k := r / w.nShards
+	gs := []int{2, 2, 3, 3, 4, 4, 6, 8, 8, 12, 16, 32}
+	rc := roundCase{Round: r, Procs: procsOf[(k+r%w.nShards)%len(procsOf)], G: gs[rng.IntN(len(gs))], Fonts: k%2 == 0, Delays: (k/2)%2 == 1 && haveOsmon}
 	// each shard works on its own small pool of documents (the runs alone are the expensive part)
-	pool := w.pool(r % len(procsOf))
+	pool := w.pool(r % w.nShards)
 	for g := 0; g < rc.G; g++ {
 		op := ops[rng.IntN(len(ops))]
 		rc.Tasks = append(rc.Tasks, task{Op: op.Name, Doc: pool[rng.IntN(len(pool))], Doc2: pool[rng.IntN(len(pool))], Spin: []int{0, 0, 1, 5, 20, 100, 400}[rng.IntN(7)]})
@@ -195,7 +249,7 @@ func (w *worker) plan(r int) roundCase {
 // pool returns the indices of the documents shard i draws from.
 func (w *worker) pool(i int) []int {
 	n := len(w.m.docs)
-	per := w.t.Pick(3, 6)
+	per := w.t.Pick(2, 6)
 	var out []int
 	for j := 0; j < per; j++ {
 		out = append(out, (i*per+j)%n)
@@ -280,11 +334,6 @@ func (w *worker) differsAlone(op *opDef, tk task, e *refEntry) bool {
 func (w *worker) round(r int) {
 	t := w.t
 	rc := w.plan(r)
-	runtime.GOMAXPROCS(16)
-	refs := make([]*refEntry, rc.G)
-	for g, tk := range rc.Tasks {
-		refs[g] = w.ref(opByName(tk.Op), tk)
-	}
 	runtime.GOMAXPROCS(rc.Procs)
 
 	results := make([]result, rc.G)
@@ -329,7 +378,12 @@ func (w *worker) round(r int) {
 	t.Count("rounds", 1)
 	t.Count(fmt.Sprintf("rounds_gomaxprocs_%d", rc.Procs), 1)
 
-	// (ii) determinism
+	// (ii) determinism: the runs alone come AFTER the concurrent round, so that whatever pdfcpu
+	// initialises lazily is initialised under concurrency at least in every shard's first rounds.
+	refs := make([]*refEntry, rc.G)
+	for g, tk := range rc.Tasks {
+		refs[g] = w.ref(opByName(tk.Op), tk)
+	}
 	rcShort := rc
 	for g, tk := range rc.Tasks {
 		op := opByName(tk.Op)
@@ -430,6 +484,13 @@ func (w *worker) startFontTraffic(rc roundCase, start chan struct{}, opsDone *at
 		defer mutDone.Store(true)
 		rng := w.t.RNGi("mutator", rc.Round)
 		<-start
+		// The directory is only switched once the registry has been loaded: a lazy first load that
+		// lists the directory while it is being exchanged is a filesystem race outside the API (the
+		// first load itself still happens concurrently with the readers' first lookups).
+		if err := font.LoadUserFonts(); err != nil {
+			h.note(&h.errs, "LoadUserFonts: "+err.Error())
+			return
+		}
 		for i := 0; i < rc.Writes; i++ {
 			v := (w.cur + 1 + rng.IntN(nVersions-1)) % nVersions
 			if err := w.publish(v); err != nil {
@@ -450,15 +511,40 @@ func (w *worker) startFontTraffic(rc roundCase, start chan struct{}, opsDone *at
 			}
 		}
 	}()
+	// hunters: unrecorded tight loops that only look for states belonging to no version
+	for hn := 0; hn < 2; hn++ {
+		fwg.Add(1)
+		go func() {
+			defer fwg.Done()
+			<-start
+			n := int64(0)
+			for ; n < 50000 && !mutDone.Load(); n++ {
+				ss, err := font.UserFontNames()
+				if err != nil {
+					h.note(&h.errs, "UserFontNames: "+err.Error())
+					break
+				}
+				if w.versionOf(ss) < 0 {
+					h.note(&h.torn, fmt.Sprintf("UserFontNames returned %v, which is the content of no version", ss))
+					break
+				}
+				if _, ok, err := font.UserFont(commonFont); err == nil && !ok {
+					h.note(&h.torn, "UserFont("+commonFont+") not found although every version contains it")
+					break
+				}
+			}
+			w.t.Count("fontreg_hunter_lookups", 2*n)
+		}()
+	}
 	for c := 1; c <= rc.Readers; c++ {
 		fwg.Add(1)
 		go func(c int) {
 			defer fwg.Done()
 			rng := w.t.RNGi(fmt.Sprintf("reader%d", c), rc.Round)
 			<-start
-			// keep looking up while the mutator writes (and a little longer), at most 60 lookups per reader
+			// keep looking up while the mutator writes (and a little longer), at most 120 lookups per reader
 			extra := 3
-			for n := 0; n < 60; n++ {
+			for n := 0; n < 120; n++ {
 				if mutDone.Load() {
 					if extra == 0 {
 						break
@@ -515,8 +601,16 @@ func (w *worker) lookup(h *history, c int, rng *rand.Rand) {
 		call := h.clock.Add(1)
 		wd, err := font.TextWidth("Verif", name, 12)
 		ret := h.clock.Add(1)
-		// an absent font is reported as an error; a present one has a positive width
-		h.add(c, regIn{Kind: "has", V: v, Via: "TextWidth"}, call, regOut{Has: err == nil && wd > 0}, ret)
+		// an absent font is reported as font.ErrUnknownFont; a present one has a positive width
+		if err != nil && !errors.Is(err, font.ErrUnknownFont) {
+			h.note(&h.errs, "TextWidth: "+err.Error())
+			return
+		}
+		if err == nil && wd <= 0 {
+			h.note(&h.errs, fmt.Sprintf("TextWidth(%s) = %v", name, wd))
+			return
+		}
+		h.add(c, regIn{Kind: "has", V: v, Via: "TextWidth"}, call, regOut{Has: err == nil}, ret)
 	case 4:
 		call := h.clock.Add(1)
 		ok, err := font.SupportedFont(name)
